@@ -1060,7 +1060,7 @@ def parse_primary_expr(lexer, unary_minus=False):
     elif token.type == "pattern":
         try:
             pattern = ValuePattern(token.value[2:-2])
-        except (re.error, OverflowError, RecursionError) as e:
+        except (re.error, OverflowError, ValueError, RecursionError) as e:
             raise CklSyntaxError(
                 f"Invalid pattern {token.value}: {e}", token.pos
             )
